@@ -26,7 +26,7 @@ def generate(seed, mode="c09", opts=None):
     ngen = ch.rint(1, 4, "ngen")
     gens = []
     for g in range(ngen):
-        shape = ch.pick(["P1", "P2", "P3", "P4", "P0", "P5"], "shape")
+        shape = ch.pick(["P1", "P2", "P3", "P4", "P0", "P5", "P6"], "shape")
         cached = [j for j in range(g) if gens[j]["cache"]]  # only caching generators are called by others
         body = ch.weighted([(5, "build"), (3 if cached else 0, "call"), (2 if cached else 0, "pass"), (2, "raise_n")], "body")
         callee = ch.pick(cached, "callee") if cached and body in ("call", "pass") else None
@@ -48,6 +48,11 @@ def generate(seed, mode="c09", opts=None):
         if ch.chance(1, 6) and len(ops) > 2:
             calls = [i for i, o in enumerate(ops) if o[0] == "call"]
             ops.append(["export_pair", ch.pick(calls, "e1"), ch.pick(calls, "e2")])
+    if ch.chance(1, 4):
+        # two generators that call each other with the same parameters: a genuine circular
+        # dependency, refused - and without consequences for any other call
+        for _ in range(ch.rint(1, 2, "ncyc")):
+            ops.insert(ch.draw(len(ops) + 1, "cycat"), ["call_cycle", {"a": ch.pick(INT_POOL[:2], "cyca"), "b": "x"}])
     calls = [i for i, o in enumerate(ops) if o[0] == "call"]
     ops.append(["export_all"])
     order = ch.shuffle(list(range(len(ops))), "reorder")
@@ -62,6 +67,15 @@ def draw_params(ch, shape):
         return {}
     if shape == "P5":  # a field that is a number or a string: values that print alike
         return {"tap": ch.pick([1, "1", 2.5, "2.5", "x", 0, "0"], "tap"), "width": ch.pick([None, 1], "width")}
+    if shape == "P6":  # an optional field whose default is not None; a nested field made by a default factory
+        spec = {"n": ch.pick([0, 1], "n6")}
+        load = ch.pick(["omit", None, 4, 5], "load")
+        if load != "omit":
+            spec["load"] = load
+        bias = ch.pick(["omit", {"a": 0, "b": "x"}, {"a": 1, "b": "x"}, {"a": 0, "b": "y"}], "bias")
+        if bias != "omit":
+            spec["bias"] = bias
+        return spec
     few = ch.chance(2, 3)  # small pools make equal parameters frequent
     sp = STR_POOL[:6] if few else STR_POOL
     ip = INT_POOL[:3] if few else INT_POOL
@@ -101,7 +115,18 @@ class Env:
         from typing import Union
 
         P5 = h.paramclass(type("P5", (), {"tap": h.Param(dtype=Union[int, float, str], desc="tap"), "width": h.Param(dtype=Optional[int], desc="width", default=None)}))
-        self.P = {"P1": P1, "P2": P2, "P3": P3, "P4": P4, "P0": h.HasNoParams, "P5": P5}
+        P6 = h.paramclass(
+            type(
+                "P6",
+                (),
+                {
+                    "n": h.Param(dtype=int, desc="n"),
+                    "load": h.Param(dtype=Optional[int], desc="load", default=4),
+                    "bias": h.Param(dtype=P1, desc="bias", default_factory=lambda: P1(a=0, b="x")),
+                },
+            )
+        )
+        self.P = {"P1": P1, "P2": P2, "P3": P3, "P4": P4, "P0": h.HasNoParams, "P5": P5, "P6": P6}
         ma = h.Module(name="ModA")
         ma.p = h.Port()
         mb = h.Module(name="ModB")
@@ -111,6 +136,19 @@ class Env:
         for gid, g in enumerate(gens):
             self.gens.append(self.make_gen(gid, g))
 
+        def cyc_a(p):
+            return env_self.cyc_b(p)
+
+        def cyc_b(p):
+            return env_self.cyc_a(p)
+
+        env_self = self
+        for fn, nm in ((cyc_a, "CycA"), (cyc_b, "CycB")):
+            fn.__name__ = fn.__qualname__ = nm
+            fn.__annotations__ = {"p": P1, "return": h.Module}
+        self.cyc_a = h.generator(cyc_a)
+        self.cyc_b = h.generator(cyc_b)
+
     def params(self, shape, spec):
         h = self.h
         if shape == "P0":
@@ -119,6 +157,11 @@ class Env:
             return self.P["P5"](**spec)
         if shape == "P1":
             return self.P["P1"](**spec)
+        if shape == "P6":
+            kw = dict(spec)
+            if "bias" in kw:
+                kw["bias"] = self.P["P1"](**kw["bias"])
+            return self.P["P6"](**kw)
         if shape == "P2":
             return self.P["P2"](**spec)
         if shape == "P3":
@@ -136,7 +179,7 @@ class Env:
 
         def body(p):
             env.attempts[gid] = env.attempts.get(gid, 0) + 1
-            key = (gid, p)
+            key = (gid, pkey(p))
             if g["body"] == "raise_n":
                 env.fail_left = getattr(env, "fail_left", {})
                 left = env.fail_left.get(key, g["n_fail"])
@@ -180,11 +223,24 @@ class Env:
             return self.P["P5"](tap=tag, width=None)
         if shape == "P1":
             return self.P["P1"](a=len(tag), b=tag)
+        if shape == "P6":
+            return self.P["P6"](n=len(tag), load=None, bias=self.P["P1"](a=len(tag), b=tag))
         if shape == "P2":
             return self.P["P2"](a=tag, b=None, c=0.0)
         if shape == "P3":
             return self.P["P3"](n=self.P["P1"](a=len(tag), b=tag), e=Color.RED, s=1)
         return self.P["P4"](m=self.mods["ma"], k=hash64(tag) % (1 << 30))
+
+
+def pkey(p):
+    """Equality of parameter values, field by field: nested param-class instances are compared by
+    their fields here, not by whatever `__eq__` the library generated for them; leaf values
+    (numbers, strings, enums, Prefixed, modules) use their own equality."""
+    import dataclasses
+
+    if dataclasses.is_dataclass(p) and hasattr(p, "__params__"):
+        return ("PC", type(p).__name__) + tuple((f.name, pkey(getattr(p, f.name))) for f in dataclasses.fields(p))
+    return p
 
 
 def repr_params(p):
@@ -218,7 +274,8 @@ def exec_calls(arg):
     order = scn["reorder"] if reordered else list(range(len(ops)))
     obs = [None] * len(ops)
     results = {}  # op index -> module
-    model = {}  # (gid, params) -> op index of first successful call
+    model = {}  # (gid, parameter key) -> op index of first successful call
+    plain = {}  # parameter key -> one parameter instance with that key (for messages)
     names_seen = {}  # id(module) -> (name, module)
     uncached_results = set()
     reported_runs = set()
@@ -245,6 +302,18 @@ def exec_calls(arg):
         if op[0] == "junk":
             keep.append(bytearray(op[1]))
             continue
+        if op[0] == "call_cycle":
+            try:
+                env.cyc_a(env.P["P1"](**op[1]))
+                probe("genuine_cycle_returned")  # cannot happen; not this profile's business
+            except RecursionError:
+                probe("genuine_cycle_recursion_error")
+                obs[i] = {"raised": "cycle"}
+            except Exception as e:  # noqa
+                exc = interp.norm_exc(e)
+                probe("genuine_cycle_refused" if interp.is_circular_msg(exc) else "genuine_cycle_refused_other_error")
+                obs[i] = {"raised": "cycle"}
+            continue
         if op[0] in ("call", "call_inner_of"):
             gid, spec, form = op[1], op[2], op[3]
             g = scn["gens"][gid]
@@ -259,7 +328,8 @@ def exec_calls(arg):
                 obs[i] = {"params_invalid": interp.norm_exc(e)[0]}
                 continue
             gen = env.gens[gid]
-            key = (gid, p)
+            key = (gid, pkey(p))
+            plain[key] = p
             before_runs = env.body_runs.get(key, 0)
             before_attempts = env.attempts.get(gid, 0)
             try:
@@ -306,15 +376,15 @@ def exec_calls(arg):
                         if collapses:
                             break  # a pass-through to a parameter-less generator returns one module by construction
                         if g2 == gid and j != i and results[j] is m:
-                            fail("unequal-params-same-module", f"calls #{j} and #{i}: unequal parameters {repr_params(p2)} / {repr_params(p)} returned one Module")
+                            fail("unequal-params-same-module", f"calls #{j} and #{i}: unequal parameters {repr_params(plain[(g2, p2)])} / {repr_params(p)} returned one Module")
                         elif g2 == gid and j != i and results[j].name == m.name:
-                            fail("unequal-params-same-name", f"calls #{j} and #{i}: unequal parameters {repr_params(p2)} / {repr_params(p)} give one name {m.name!r}")
+                            fail("unequal-params-same-name", f"calls #{j} and #{i}: unequal parameters {repr_params(plain[(g2, p2)])} / {repr_params(p)} give one name {m.name!r}")
             check_names()
             # a caching generator's body runs once per parameter value, whoever calls it
             for (g3, p3), n3 in env.body_runs.items():
                 if n3 > 1 and scn["gens"][g3]["cache"] and (g3, p3) not in reported_runs:
                     reported_runs.add((g3, p3))
-                    fail("body-ran-twice", f"after call #{i}: the body of caching generator {g3} has run {n3} times for {repr_params(p3)}")
+                    fail("body-ran-twice", f"after call #{i}: the body of caching generator {g3} has run {n3} times for {repr_params(plain.get((g3, p3), p3)) if (g3, p3) in plain else p3}")
             names_seen.setdefault(id(m), (m.name, m))
             obs[i] = {"name": m.name, "qual": _qual(h, m)}
         elif op[0] in ("export_pair", "export_all"):
